@@ -173,8 +173,8 @@ Record storage_p := {
   sp_cost_in : Q; sp_cost_out : Q; sp_cost_store : Q; sp_eff : Q; sp_inflow : Q;
   sp_price : option vec; sp_no_simult : bool; sp_max_dur : option Q }.
 
-Fixpoint tails_sum (l : vec) : vec :=       (* [sum l[i:] for i] *)
-  match l with [] => [] | a :: l' => Qred (a + hd 0 (tails_sum l' ++ [0])) :: tails_sum l' end.
+Fixpoint tails_sum (l : vec) : vec :=       (* [sum l[i:] for i]; the recursive result is shared (one call per element) *)
+  match l with [] => [] | a :: l' => let r := tails_sum l' in Qred (a + hd 0 (r ++ [0])) :: r end.
 Definition set_last (l : vec) (v : Q) : vec := match l with [] => [] | _ => removelast l ++ [v] end.
 (* lower-triangular cumulative row i: columns off..off+i with coefficient k *)
 Definition tril_row (off i : nat) (k : Q) : srow := map (fun j => ((off + j)%nat, k)) (seq 0 (S i)).
